@@ -7,11 +7,11 @@ for pkg in ('xtuml', 'bridgepoint'):
     shutil.copytree('/repo/' + pkg, t + '/' + pkg, ignore=shutil.ignore_patterns('__pycache__', '__oal_*', '__xtuml_*'))
 subprocess.run(['patch', '-p1', '-s', '-d', t, '-i', os.path.abspath(sys.argv[1])], check=True)
 os.environ['PYX_NO_EQUIV'] = '1'
-from sa import src
+from sa import src, equiv
 def nf(root, q):
     os.environ['PYX_REPO'] = root
     r = src.Repo()
-    return ast.unparse(r.nfunc(q))
+    return equiv.alpha(r.nfunc(q))
 for q in sys.argv[2:]:
     a, b = nf('/repo', q), nf(t, q)
     print('====', q, 'SAME' if a == b else 'DIFFERENT')
